@@ -21,6 +21,7 @@
 (*  it_new  slot, src, a, b, res, sig iter() / range(a,b) / names() into a slot *)
 (*  it_op   slot, op, n, res, sig     next next_back nth nth_back len size_hint *)
 (*                                    find rfind take_count rev_take_count take_last *)
+(*                                    position rposition dyn_nth dyn_nth_back *)
 (*  it_end  slot, op, n, res, sig     consuming operation                   *)
 (*  par     threads, res, sig         a block of `threads` concurrent threads *)
 (*                                    returned (or the process died in it); *)
@@ -117,8 +118,10 @@ OpStep(e) ==
   LET cur == its[e.slot] w == cur.w IN
   CASE e.op = "next"      -> LET r == WNext(base, w)     IN <<Obs(cur.src, r[1]), r[2]>>
     [] e.op = "next_back" -> LET r == WNextBack(base, w) IN <<Obs(cur.src, r[1]), r[2]>>
-    [] e.op \in {"nth", "find"}       -> LET r == WNth(base, w, e.n) IN <<Obs(cur.src, r[1]), r[2]>>
-    [] e.op \in {"nth_back", "rfind"} -> LET r == WNthBack(base, w, e.n) IN <<Obs(cur.src, r[1]), r[2]>>
+    [] e.op \in {"nth", "find", "dyn_nth"}            -> LET r == WNth(base, w, e.n) IN <<Obs(cur.src, r[1]), r[2]>>
+    [] e.op \in {"nth_back", "rfind", "dyn_nth_back"} -> LET r == WNthBack(base, w, e.n) IN <<Obs(cur.src, r[1]), r[2]>>
+    [] e.op = "position"  -> LET p == PosResult(WLen(w), e.n)  IN <<IF p < 0 THEN None ELSE Len_(p), WNth(base, w, e.n)[2]>>
+    [] e.op = "rposition" -> LET p == RPosResult(WLen(w), e.n) IN <<IF p < 0 THEN None ELSE Len_(p), WNthBack(base, w, e.n)[2]>>
     [] e.op = "take_count"     -> LET r == WTakeCount(w, e.n)    IN <<Len_(r[1]), r[2]>>
     [] e.op = "rev_take_count" -> LET r == WRevTakeCount(w, e.n) IN <<Len_(r[1]), r[2]>>
     [] e.op = "take_last"      -> LET r == WTakeLast(base, w, e.n) IN <<Obs(cur.src, r[1]), r[2]>>
@@ -152,6 +155,16 @@ EndObs(e) ==
     [] e.op = "skip"     -> ObsSeq(cur.src, ConsSkip(rest, e.n))
     [] e.op = "take"     -> ObsSeq(cur.src, ConsTake(rest, e.n))
     [] e.op = "rev_skip" -> ObsSeq(cur.src, ConsRevSkip(rest, e.n))
+    [] e.op = "rev_nth"      -> Obs(cur.src, ConsRevNth(rest, e.n))
+    [] e.op = "peek_collect" -> ObsSeq(cur.src, ConsCollect(rest))
+    [] e.op = "max_by_key0"  -> Obs(cur.src, ConsLast(rest))          \* (the last of equal maxima)
+    [] e.op = "min_by_key0"  -> Obs(cur.src, ConsFirst(rest))         \* (the first of equal minima)
+    [] e.op = "partition"    -> LET q == ConsPartition(rest) IN ObsSeq(cur.src, [i \in 1..Len(q) |-> q[i][2]])
+    [] e.op = "rev_len"      -> Len_(Len(rest))
+    [] e.op = "skip_len"     -> Len_(ConsSkipLen(rest, e.n))
+    [] e.op = "take_len"     -> Len_(ConsTakeLen(rest, e.n))
+    [] e.op = "step_by_len"  -> Len_(ConsStepByLen(rest, e.n))
+    [] e.op \in {"chain_hint", "zip_hint"} -> Hint(Len(rest), Len(rest))
     [] e.op = "min"      -> Obs(cur.src, ItemMin(cur.src, rest))
     [] e.op = "max"      -> Obs(cur.src, ItemMax(cur.src, rest))
 
